@@ -1,5 +1,192 @@
 package main
 
-import "fmt"
+import (
+	"encoding/json"
+	"flag"
+	"fmt"
+	"os"
+	"path/filepath"
+	"sort"
+	"strings"
+	"time"
 
-func cmdFaults(args []string) { fmt.Println("not yet implemented") }
+	"verif/harness/internal/simvk"
+)
+
+type faultSummary struct {
+	Seed         uint64         `json:"seed"`
+	Profile      string         `json:"profile"`
+	Histories    int            `json:"histories"`
+	FaultPoints  int            `json:"fault_points_tried"`
+	Fired        int            `json:"fault_points_fired"`
+	OpFailed     int            `json:"op_returned_error"`
+	OpAbsorbed   int            `json:"op_succeeded_despite_fault"`
+	OpPanicked   int            `json:"op_panicked"`
+	ByCallKind   map[string]int `json:"faults_by_call_kind"`
+	ByOp         map[string]int `json:"faults_by_op"`
+	Failures     []*failReport  `json:"oracle_failures"`
+	Seconds      float64        `json:"seconds"`
+	BaselineKeys []string       `json:"failures_also_present_without_faults"`
+}
+
+// cmdFaults enumerates fault points (property C10): for every op of every generated history it counts the
+// fallible driver calls the op makes without faults (n) and then, for k = 1..n, re-executes the prefix on a
+// fresh allocator with call k failing (one-shot and sticky), evaluating every oracle on the faulted step and
+// on a follow-up allocation into the same Allocation object(s).
+func cmdFaults(args []string) {
+	fs := flag.NewFlagSet("faults", flag.ExitOnError)
+	seed := fs.Uint64("seed", 1, "PRNG seed")
+	n := fs.Int("n", 10, "number of histories")
+	ops := fs.Int("ops", 40, "max ops per history")
+	prof := fs.String("profile", "basic", "profile")
+	out := fs.String("out", "", "output directory for failing traces")
+	mode := fs.String("sticky", "both", "one | sticky | both")
+	doShrink := fs.Bool("shrink", true, "shrink failing traces")
+	fs.Parse(args)
+	if *out != "" {
+		os.MkdirAll(*out, 0o755)
+	}
+	start := time.Now()
+	master := newRng(*seed)
+	sum := &faultSummary{Seed: *seed, Profile: *prof, ByCallKind: map[string]int{}, ByOp: map[string]int{}}
+	reports := map[string]*failReport{}
+	witness := map[string]*history{}
+	baselineSeen := map[string]bool{}
+
+	var stickies []int
+	switch *mode {
+	case "one":
+		stickies = []int{0}
+	case "sticky":
+		stickies = []int{1}
+	default:
+		stickies = []int{0, 1}
+	}
+
+	for i := 0; i < *n; i++ {
+		hr := master.fork()
+		cfg := makeCfg(*prof, hr.fork())
+		g := newGenerator(*prof, hr.fork(), *ops)
+		base := runHistory(cfg, g, *ops+4*maxSlots+100, "")
+		sum.Histories++
+		baseKeys := base.failKeys()
+		for k := range baseKeys {
+			baselineSeen[k] = true
+		}
+		opsList := base.ops()
+		frng := hr.fork()
+		for j := 1; j < len(opsList); j++ {
+			// fallible calls of step j in the fault-free run
+			var kinds []simvk.CallKind
+			for _, l := range base.steps[j].calls {
+				if l.Kind.Fallible() {
+					kinds = append(kinds, l.Kind)
+				}
+			}
+			for k := 1; k <= len(kinds); k++ {
+				for _, st := range stickies {
+					result := 0
+					if kinds[k-1] == simvk.CallAlloc {
+						result = frng.pick(simvk.ResOutOfDeviceMemory, simvk.ResOutOfDeviceMemory, simvk.ResOutOfHostMemory, simvk.ResTooManyObjects)
+					}
+					seq := append([]Op(nil), opsList[:j]...)
+					seq = append(seq, mkOp("fault", -1, k, result, st), opsList[j])
+					// follow-up: the Allocation objects the op targeted must be reusable
+					for _, s := range allocTargets(opsList[j]) {
+						seq = append(seq, mkOp("alloc", s, 64, 1, allTypesMask(len(cfg.Dev.Types)), 0, 0, 0, 0, 0, -1))
+					}
+					h := runHistoryTail(cfg, seq, j)
+					sum.FaultPoints++
+					fstep := &h.steps[j+1]
+					fired := h.world.dev.FaultsFired.Load() > 0
+					if fired {
+						sum.Fired++
+						sum.ByCallKind[kinds[k-1].String()]++
+						sum.ByOp[opsList[j].Name]++
+						switch fstep.res.Kind {
+						case "err":
+							sum.OpFailed++
+						case "ok":
+							sum.OpAbsorbed++
+						case "panic", "hang":
+							sum.OpPanicked++
+						}
+					}
+					for t := j; t < len(h.steps); t++ {
+						for _, f := range h.steps[t].fails {
+							if _, inBase := baseKeys[f.key()]; inBase {
+								continue
+							}
+							key := "C10/" + f.prop + "." + f.sig
+							r := reports[key]
+							if r == nil {
+								r = &failReport{Property: "C10", Sig: f.prop + "." + f.sig, Example: fmt.Sprintf("fault at call %d (%s, sticky=%d) of op %q: %s", k, kinds[k-1], st, opsList[j].String(), f.detail),
+									First: fmt.Sprintf("history %d op %d", i, j)}
+								reports[key] = r
+								witness[key] = h
+							} else if len(h.steps) < len(witness[key].steps) {
+								witness[key] = h
+							}
+							r.Count++
+						}
+					}
+				}
+			}
+		}
+	}
+	keys := make([]string, 0, len(reports))
+	for k := range reports {
+		keys = append(keys, k)
+	}
+	sort.Strings(keys)
+	for _, k := range keys {
+		r := reports[k]
+		// failures that also occur in some fault-free history are not attributable to the fault
+		if baselineSeen[strings.Replace(r.Sig, ".", "/", 1)] {
+			continue
+		}
+		if *out != "" {
+			h := witness[k]
+			// the witness was executed with oracles only on the tail: re-execute fully so that the trace is complete
+			full := runHistory(h.cfg, &listSource{ops: h.ops()}, len(h.steps), "")
+			origKey := ""
+			for _, f := range full.failKeys() {
+				if f.prop+"."+f.sig == r.Sig {
+					origKey = f.key()
+				}
+			}
+			if *doShrink && origKey != "" {
+				full = shrink(full, origKey)
+			}
+			path := filepath.Join(*out, fmt.Sprintf("fail-C10-%s.trace", shortHash(r.Sig)))
+			full.write(path, "fault-injection witness for C10 ("+r.Sig+")", "sig="+r.Sig)
+			r.Trace = path
+			r.MinOps = len(full.steps)
+		}
+		sum.Failures = append(sum.Failures, r)
+	}
+	for k := range baselineSeen {
+		sum.BaselineKeys = append(sum.BaselineKeys, k)
+	}
+	sort.Strings(sum.BaselineKeys)
+	sum.Seconds = time.Since(start).Seconds()
+	js, _ := json.MarshalIndent(sum, "", "  ")
+	fmt.Println(string(js))
+}
+
+// allocTargets lists the Allocation slots an op allocates into.
+func allocTargets(op Op) []int {
+	switch op.Name {
+	case "alloc", "abuf", "aimg":
+		return []int{op.arg(0)}
+	case "cbuf", "cimg":
+		return []int{op.arg(1)}
+	case "allocn":
+		var out []int
+		for i := 0; i < op.arg(1); i++ {
+			out = append(out, op.arg(0)+i)
+		}
+		return out
+	}
+	return nil
+}
